@@ -48,8 +48,8 @@ E1_PLANS = {
     },
     "C06": {
         "quick": [(c, "n2") for c in ("dir_NoLabel", "und_NoLabel", "dir_int", "und_int", "dir_string", "und_string", "dmulti", "umulti", "dweighted", "uweighted")] +
-                 [("dir_NoLabel", "n3"), ("und_NoLabel", "n3"), ("dir_int", "n3d3"), ("und_int", "n3d3"), ("dmulti", "n3d3"), ("umulti", "n3d3"), ("dweighted", "n3d3"), ("uweighted", "n3d3")] + [("dir_string", "bigger"), ("und_string", "bigger"), ("uweighted", "bigger"), ("dweighted", "bigger"), ("umulti", "bigger"), ("dir_NoLabel", "bigger"), ("und_string", "n2x"), ("uweighted", "n2x")],
-        "thorough": [(c, "n2") for c in ("dir_NoLabel", "und_NoLabel", "dir_int", "und_int", "dir_string", "und_string", "dir_struct", "und_struct", "dmulti", "umulti", "dweighted", "uweighted")] +
+                 [("dir_NoLabel", "n3"), ("und_NoLabel", "n3"), ("dir_int", "n3d3"), ("und_int", "n3d3"), ("dmulti", "n3d3"), ("umulti", "n3d3"), ("dweighted", "n3d3"), ("uweighted", "n3d3")] + [("dir_string", "bigger"), ("und_string", "bigger"), ("uweighted", "bigger"), ("dweighted", "bigger"), ("umulti", "bigger"), ("dir_NoLabel", "bigger"), ("und_string", "n2x"), ("dweighted", "n2odd"), ("uweighted", "n2odd")],
+        "thorough": [("uweighted", "n2x")] + [(c, "n2") for c in ("dir_NoLabel", "und_NoLabel", "dir_int", "und_int", "dir_string", "und_string", "dir_struct", "und_struct", "dmulti", "umulti", "dweighted", "uweighted")] +
                     [(c, "n3") for c in ("dir_NoLabel", "und_NoLabel", "dir_int", "und_int", "dmulti", "umulti", "dweighted", "uweighted")] + [("dir_string", "bigger"), ("und_string", "bigger"), ("uweighted", "bigger"), ("dweighted", "bigger"), ("umulti", "bigger"), ("dir_NoLabel", "bigger"), ("und_string", "n2x"), ("uweighted", "n2x")] + [("und_string", "big"), ("umulti", "big"), ("dir_int", "big"), ("dir_empty", "n2"), ("und_empty", "n2")],
     },
     "C16": {
